@@ -208,6 +208,8 @@ pub enum Kind_ {
     SocketDirect,
     Open,
     OpenDirect,
+    OpenExtract,
+    OpenDirectExtract,
     CreateDir,
     Rename,
     RemoveFile,
@@ -267,6 +269,8 @@ pub const ALL_KINDS: &[Kind_] = &[
     Kind_::SocketDirect,
     Kind_::Open,
     Kind_::OpenDirect,
+    Kind_::OpenExtract,
+    Kind_::OpenDirectExtract,
     Kind_::CreateDir,
     Kind_::Rename,
     Kind_::RemoveFile,
@@ -309,14 +313,14 @@ impl Kind_ {
         matches!(self, Kind_::ReadPool | Kind_::MultishotRead | Kind_::RecvPool | Kind_::MultishotRecv)
     }
     pub fn needs_direct(self) -> bool {
-        matches!(self, Kind_::SocketDirect | Kind_::OpenDirect | Kind_::PipeDirect | Kind_::ToDirect | Kind_::ToFile)
+        matches!(self, Kind_::SocketDirect | Kind_::OpenDirect | Kind_::OpenDirectExtract | Kind_::PipeDirect | Kind_::ToDirect | Kind_::ToFile)
     }
     /// Creates descriptors for the caller.
     pub fn creates_fd(self) -> bool {
         use Kind_::*;
         matches!(
             self,
-            Accept | AcceptNoAddr | MultishotAccept | Socket | SocketDirect | Open | OpenDirect | Pipe | PipeDirect | ToDirect | ToFile
+            Accept | AcceptNoAddr | MultishotAccept | Socket | SocketDirect | Open | OpenDirect | OpenExtract | OpenDirectExtract | Pipe | PipeDirect | ToDirect | ToFile
         )
     }
     /// Result is a byte count chosen by the kernel.
@@ -501,6 +505,11 @@ pub fn make(kind: Kind_, env: &Env, rng: &mut Rng) -> Box<dyn DynOp> {
         OpenDirect => fut_op(
             a10::fs::OpenOptions::new().read().kind(Kind::Direct).open(sq, "/nonexistent/verif/direct".into()),
             map_afd,
+        ),
+        OpenExtract => fut_op(a10::fs::open_file(sq, "/nonexistent/verif/extract".into()).extract(), |r: io::Result<(AsyncFd, std::path::PathBuf)>| map_afd(r.map(|x| x.0))),
+        OpenDirectExtract => fut_op(
+            a10::fs::OpenOptions::new().read().kind(Kind::Direct).open(sq, "/nonexistent/verif/direct-extract".into()).extract(),
+            |r: io::Result<(AsyncFd, std::path::PathBuf)>| map_afd(r.map(|x| x.0)),
         ),
         CreateDir => fut_op(a10::fs::create_dir(sq, "/nonexistent/verif/dir".into()), map_unit),
         Rename => fut_op(a10::fs::rename(sq, "/nonexistent/verif/a".into(), "/nonexistent/verif/b".into()), map_unit),
